@@ -33,7 +33,7 @@ ASSUMPTIONS = ["exact arithmetic", "N - p >= p and full column rank where unique
                "lstsq returns a solution of the normal equations (always true of a least-squares solver, also when rank-deficient)"]
 RULE = ("exact in Coq: real/complex low-bit dyadic data (noise, 4th-root-of-unity exponentials with and without noise, scaled by 2^k), N=4..16, "
         "orders 1..4, cond(Xc)^2 <= 1e6; search: N=6..128, orders 1..min(N/2,20), noise / tones in noise / noiseless exponentials / "
-        "integers, amplitudes 1e-5..1e7; non-trivial = order >= 2")
+        "integers, amplitudes 1e-12..1e9; non-trivial = order >= 2")
 
 PRE = """Require Import Spectrum.Theory.Ops Spectrum.Theory.Vec Spectrum.Model.Corr Spectrum.Model.Ls Spectrum.Model.CovarMarple Spectrum.Instances.QcC.
 From Coq Require Import QArith Qcanon.
@@ -443,7 +443,7 @@ def run(ctx):
         elif style == 'int':
             x = lowbit(rng, N, cplx, bits=6)
         else:
-            x = noise * 10.0 ** int(rng.integers(-5, 8))
+            x = noise * 10.0 ** int(rng.choice([-12, -10, -9, -8, -7, -6, -5, -4, -3, -2, -1, 1, 2, 3, 4, 5, 6, 7, 9]))      # every clause is scale free
         tag = ('complex' if cplx else 'real')
         for fname in ('arcovar', 'modcovar'):
             ctx.count('search/%s/%s/%s' % (fname, tag, style))
